@@ -65,6 +65,26 @@ C12P == {PlainPut(k, 0, x) : k \in C12Keys, x \in {NoExp}} \cup
 C12D == UNION {{[key |-> k, exp |-> x] : x \in ExpChoices(k)} : k \in C12Keys}
 C12R == {[s |-> a, e |-> b] : a, b \in C12Keys}
 
+\* c12p: the same alphabet from pre-populated shards
+AllPut(v) == [NoReq EXCEPT !.puts = <<PlainPut(Ka, v, NoExp), PlainPut(Kb, v + 1, NoExp),
+                                       PlainPut(Kab, v + 2, NoExp), PlainPut(Kba, v + 3, NoExp)>>]
+SetupsP == << <<[NoReq EXCEPT !.puts = <<PlainPut(Ka, 1, NoExp), PlainPut(Kba, 2, NoExp)>>]>>,
+              <<AllPut(1)>>,
+              <<AllPut(1), [NoReq EXCEPT !.puts = <<PlainPut(Kb, 5, NoExp), PlainPut(Kab, 6, NoExp)>>,
+                                         !.dels = <<[key |-> Ka, exp |-> NoExp]>>]>> >>
+\* c12big: 99 / 100 / 101 keys "a/b-NNN" so that a delete-range meets both strategies of
+\* applyDeleteRange (individual deletes up to DeleteRangeThreshold = 100 keys, one range tombstone above)
+BigKey(i) == Kab \o <<DASH, 48 + (i \div 100), 48 + ((i \div 10) % 10), 48 + (i % 10)>>
+\* (populated 25 keys per request: TLC's evaluation stack does not survive a 100-operation request)
+BigChunk(lo, hi) == [NoReq EXCEPT !.puts = [i \in 1..(hi - lo + 1) |-> PlainPut(BigKey(lo + i - 1), lo + i - 1, NoExp)]]
+BigPuts(m) == <<BigChunk(1, 25), BigChunk(26, 50), BigChunk(51, 75), BigChunk(76, m)>>
+SetupsBig == <<BigPuts(99), BigPuts(100), BigPuts(101),
+               BigPuts(101) \o <<[NoReq EXCEPT !.puts = <<PlainPut(Ka, 1, NoExp), PlainPut(Kz, 2, NoExp)>>]>> >>
+BigP == {PlainPut(k, 0, NoExp) : k \in {Ka, BigKey(1), Kaz}}
+BigD == {[key |-> k, exp |-> NoExp] : k \in {BigKey(100), BigKey(101)}}
+BigR == {[s |-> Ka, e |-> Kaz], [s |-> Kab \o <<DASH>>, e |-> Kab \o <<46>>], [s |-> BigKey(2), e |-> BigKey(101)],
+         [s |-> <<>>, e |-> Kz \o <<SLASH>>], [s |-> BigKey(50), e |-> BigKey(51)]}
+
 \* ---------------------------------------------------------------- c16
 SeqPut(pfx, ds) == [key |-> pfx, val |-> 0, exp |-> NoExp, sess |-> NoSess, cid |-> "", pkey |-> TRUE,
                     deltas |-> ds, idx |-> <<>>]
@@ -122,7 +142,8 @@ C13R == {[s |-> a, e |-> b] : a, b \in C13Bounds}
 
 \* ---------------------------------------------------------------- requests offered in a state
 Requests ==
-    CASE Mode = "c12" -> ReqsOver(C12P, C12D, C12R, MaxOps)
+    CASE Mode \in {"c12", "c12p"} -> ReqsOver(C12P, C12D, C12R, MaxOps)
+      [] Mode = "c12big" -> ReqsOver(BigP, BigD, BigR, MaxOps)
       [] Mode = "c16" -> {r \in ReqsOver(C16P, C16D, C16R, MaxOps) : ~SeqStateError(st, Stamp(r))}
       [] Mode = "c15" -> ReqsOver(C15P, C15D, C15R, MaxOps)
       [] Mode = "c13" -> ReqsOver(C13P, C13D, C13R, MaxOps)
@@ -165,7 +186,9 @@ DoWrite(r) ==
             ELSE /\ hist' = Append(hist, WriteRec(st, req, n, Ts(n)))
                  /\ st' = s1 /\ n' = n + 1
 
-\* c13 behaviours start with one of the set-up prefixes, executed as ordinary writes
+\* behaviours start with one of the set-up prefixes of the mode, executed as ordinary writes
+InitSetups == CASE Mode = "c13" -> Setups [] Mode = "c12p" -> SetupsP [] Mode = "c12big" -> SetupsBig
+                [] OTHER -> << <<>> >>
 RECURSIVE RunSetup(_, _, _, _)
 RunSetup(s, i, reqs, h) ==
     IF i > Len(reqs) THEN [s |-> s, h |-> h]
@@ -173,11 +196,9 @@ RunSetup(s, i, reqs, h) ==
 
 MInit ==
     /\ nt = 0
-    /\ IF Mode = "c13"
-       THEN \E i \in 1..Len(Setups) :
-               LET r == RunSetup(InitState, 1, Setups[i], <<>>) IN
-               st = r.s /\ n = Len(Setups[i]) /\ hist = r.h
-       ELSE st = InitState /\ n = 0 /\ hist = <<>>
+    /\ \E i \in 1..Len(InitSetups) :
+          LET r == RunSetup(InitState, 1, InitSetups[i], <<>>) IN
+          st = r.s /\ n = Len(InitSetups[i]) /\ hist = r.h
 
 MNext == /\ nt < MaxReqs
          /\ ~(hist # <<>> /\ hist[Len(hist)].kf)        \* a known-finding step ends the behaviour
